@@ -233,7 +233,8 @@ def gen_history(rng, f, ch, ty, lowzero, nops, depth_seed, route, special=None):
 
 def run(ctx):
     if getattr(ctx, "replay", None):
-        return ctx.replay_script(ctx.replay)
+        from .. import absreplay
+        return absreplay.replay(ctx, ctx.replay)      # re-judged by `sfmodel abs` when the file carries its geometry header
     quick = ctx.tier == "quick"
     failed = ctx.lean_stage(modules_for("C08"))
     found = False
@@ -353,8 +354,13 @@ def run(ctx):
                 continue
             reported.add(key)
             found = True
-            ctx.violation("c08-%s" % f.name, "# C08 violated on the implementation's own transcript (abstract-file semantics of the statement)\n# format %s, %d channel(s), type %s, route %s\n# at script line %d: %s\n# %s\nobserved-last %s\n--- script\n%s"
-                          % (f.name, ch, ty, route, prob[0], sl[prob[0]][:100] if prob[0] < len(sl) else "", prob[1], (lines[prob[0]] if prob[0] < len(lines) else "").strip(), HC.script_prefix(script, prob[0])))
+            from .. import absreplay
+            # a failing Lean clause: the replay carries the geometry and is re-judged by `sfmodel abs`; a finding of the generator's
+            # expectation alone keeps the generic replay (observed-last)
+            body = (absreplay.plain_replay(script, prob[0], abslean.geom_line(ch, 0, "w", trunc=(route != "vio"), strict=True, lossless=[ty]), 0, clause=leantag)
+                    if leantag is not None else "observed-last %s\n--- script\n%s" % ((lines[prob[0]] if prob[0] < len(lines) else "").strip(), HC.script_prefix(script, prob[0])))
+            ctx.violation("c08-%s" % f.name, "# C08 violated on the implementation's own transcript (abstract-file semantics of the statement)\n# format %s, %d channel(s), type %s, route %s\n# at script line %d: %s\n# %s\n%s"
+                          % (f.name, ch, ty, route, prob[0], sl[prob[0]][:100] if prob[0] < len(sl) else "", prob[1], body))
     ctx.notes["rdwr_refused_at_open"] = skipped
     ctx.notes["known_finding_class_hits"] = kf_hits
     corr = [x for x in fa if x.kind == "corr"]
